@@ -3,7 +3,9 @@ script emitter for harness/pnc_impl.c, renderer of the same history as Coq terms
 coq/Numrecs.v, and the property ORACLE (the property text only, no knowledge of the library).
 
 A history is a list of steps over one file with variables
-    F(x) int  (fixed-size, varid 0),  R(t,x) int (record, varid 1),  optionally R2(t,x) (varid 2)
+    F(x) int  (fixed-size, varid 0),  R(t,x) SHORT (record, varid 1),  optionally R2(t,x) int (varid 2)
+(memory type is always int: a put on R without `pat` sends the 0xA5 fill pattern = -1515870811, which is not
+representable in NC_SHORT: the put writes its data and returns NC_ERANGE; with `pat` all values are in range)
 with x = 2*nprocs; rank k only ever writes columns 2k, 2k+1 (no concurrent overlapping writes).
 After every step every rank reports `inq_numrecs` and `inq_nreqs`; after collective steps rank 0
 reads the file (`snapshot`, header bytes 4..7 / 4..11 = record count on disk); outside define mode
@@ -12,6 +14,7 @@ ranks; independent mode: every rank reads its own highest record)."""
 import re, ast
 
 NC_EINVALCOORDS = -40
+NC_ERANGE = -60
 VARS = {'F': 0, 'R': 1, 'R2': 2}
 
 
@@ -50,7 +53,7 @@ class Hist:
         L.append('* def_dim 0 74 -1')
         L.append('* def_dim 0 78 %d' % self.x)
         L.append('* def_var 0 66 4 1 1')
-        L.append('* def_var 0 72 4 2 0 1')
+        L.append('* def_var 0 72 3 2 0 1')
         L.append('* def_var_fill 0 1 0 0 0')
         if nrv > 1:
             L.append('* def_var 0 7332 4 2 0 1')
@@ -123,39 +126,44 @@ class Hist:
 
     # ------------------------------------------------------------------ steps
     # `done[k]` = 1 + highest record the step writes on behalf of rank k (0: none) IF the call returns 0
-    def coll_put(self, var, accs):
-        """accs[k]: None (zero-length participant) or an access tuple"""
+    def coll_put(self, var, accs, er=None):
+        """accs[k]: None (zero-length participant) or an access tuple; er[k]: rank k's data contain a value that is
+        out of range for the variable (only on R): the call writes and returns NC_ERANGE"""
         isrec = var != 'F'
+        er = [bool(er and er[k] and var == 'R' and accs[k] is not None and accs[k][0] != 'bad') for k in range(self.np)]
         ls = []
         for k in range(self.np):
             a = accs[k]
-            ls.append('%d put 0 c %d %s%s' % (k, VARS[var], self._zero_tokens(var) if a is None else self._acc_tokens(k, var, a), self._pat()))
+            ls.append('%d put 0 c %d %s%s' % (k, VARS[var], self._zero_tokens(var) if a is None else self._acc_tokens(k, var, a),
+                                              '' if er[k] else self._pat()))
         idx = self._group(ls)
         done = [(hi_of(a) if (a is not None and isrec and a[0] != 'bad') else 0) for a in accs]
         if isrec:
-            mop = ('CollPutRec', [('PNone',) if a is None else ('PInvalid',) if a[0] == 'bad' else ('PRec', hi_of(a) - 1) for a in accs])
+            mop = ('CollPutRec', [('PNone',) if a is None else ('PInvalid',) if a[0] == 'bad' else
+                                  ('PRecE' if er[k] else 'PRec', hi_of(a) - 1) for k, a in enumerate(accs)])
         else:
             mop = ('CollPutFix',)
         ok = not self.indef and not self.indep
         if ok:
             self.own = [max(o, d) for o, d in zip(self.own, done)]
-        st = dict(kind='coll_put', cls='collwrite', oplines=idx, done=done, mops=[mop], misuse=False, accepted=ok)
+        st = dict(kind='coll_put', cls='collwrite', oplines=idx, done=done, mops=[mop], misuse=False, accepted=ok, erange=er)
         self._finish(st, True)
 
-    def indep_put(self, k, var, acc):
+    def indep_put(self, k, var, acc, er=False):
         isrec = var != 'F'
-        i = self._emit('%d put 0 i %d %s%s' % (k, VARS[var], self._acc_tokens(k, var, acc), self._pat()))
+        er = bool(er and var == 'R')
+        i = self._emit('%d put 0 i %d %s%s' % (k, VARS[var], self._acc_tokens(k, var, acc), '' if er else self._pat()))
         done = [0] * self.np
         if isrec:
             done[k] = hi_of(acc)
-            mop = ('IndepPutRec', k, ('PRec', hi_of(acc) - 1))
+            mop = ('IndepPutRec', k, ('PRecE' if er else 'PRec', hi_of(acc) - 1))
         else:
             mop = ('IndepPutFix', k)
         ok = not self.indef and self.indep
         if ok:
             self.own[k] = max(self.own[k], done[k])
         st = dict(kind='indep_put', cls='indepwrite', oplines=[None if r != k else i for r in range(self.np)], done=done,
-                  mops=[mop], misuse=False, accepted=ok)
+                  mops=[mop], misuse=False, accepted=ok, erange=[er and r == k for r in range(self.np)])
         self._finish(st, False)
 
     def fill(self, var, recnos):
@@ -172,18 +180,19 @@ class Hist:
                   accepted=ok)
         self._finish(st, True)
 
-    def post(self, k, var, acc, api='iput'):
+    def post(self, k, var, acc, api='iput', er=False):
         slot = self.nextslot[k]
         while slot in self.pend[k]:
             slot = (slot + 1) % 64
         self.nextslot[k] = (slot + 1) % 64
         isrec = var != 'F'
-        i = self._emit('%d %s 0 %d %d %s%s' % (k, api, slot, VARS[var], self._acc_tokens(k, var, acc), self._pat()))
+        er = bool(er and var == 'R')        # the post returns NC_ERANGE, the request is queued all the same
+        i = self._emit('%d %s 0 %d %d %s%s' % (k, api, slot, VARS[var], self._acc_tokens(k, var, acc), '' if er else self._pat()))
         hi = hi_of(acc) if isrec else 0
         self.pend[k][slot] = (isrec, hi)
         mop = ('Post', k, slot, var, (start0_of(acc) if isrec else 0), (hi if isrec else -1))
         st = dict(kind='post', cls='other', oplines=[None if r != k else i for r in range(self.np)], done=[0] * self.np,
-                  mops=[mop], misuse=False, accepted=True, slot=slot)
+                  mops=[mop], misuse=False, accepted=True, slot=slot, erange=[er and r == k for r in range(self.np)])
         self._finish(st, False)
         return slot
 
@@ -348,7 +357,7 @@ def zt(v):
 def coq_part(p):
     if p[0] == 'PNone': return 'PNone'
     if p[0] == 'PInvalid': return 'PInvalid'
-    return '(PRec %s)' % zt(p[1])
+    return '(%s %s)' % (p[0], zt(p[1]))
 
 
 def coq_sel(s):
@@ -433,6 +442,13 @@ def observe(h, impl, base):
 
 
 # ---------------------------------------------------------------------- the property oracle
+def completed_rc(st, o, k):
+    """did rank k's call of this step complete?  NC_NOERR, or NC_ERANGE for a put whose data contain an
+    out-of-range value (NC_ERANGE is not fatal: the data are written, the out-of-range element as fill value)"""
+    rc = o['rc'][k]
+    return rc == 0 or (rc == NC_ERANGE and bool(st.get('erange')) and st['erange'][k])
+
+
 def oracle(h, obs):
     """The property text evaluated on the implementation's own observations.
     Returns list of failures dict(kind, step, stepkind, detail)."""
@@ -443,15 +459,25 @@ def oracle(h, obs):
     coherent = True                 # new file in collective data mode
     for si, (st, o) in enumerate(zip(h.steps, obs)):
         rcs = [r for r in o['rc'] if r is not None]
-        ok_all = all(r == 0 for r in rcs)
+        ok_all = all(completed_rc(st, o, k) for k in range(np_) if o['rc'][k] is not None)
         # which writes completed
         for k in range(np_):
-            if o['rc'][k] == 0 and st['done'][k] > 0:
+            if completed_rc(st, o, k) and st['done'][k] > 0:
                 own[k] = max(own[k], st['done'][k])
         W = max(own)
         def fail(kind, detail):
             fails.append(dict(kind=kind, step=si, stepkind=st['kind'], detail=detail,
-                              subset=st.get('subset'), pending=st.get('pending')))
+                              subset=st.get('subset'), pending=st.get('pending'),
+                              erange=bool(st.get('erange')) and any(st['erange'])))
+        # expected return code of a put whose data are (not) representable
+        if st.get('erange') is not None and st['accepted']:
+            for k in range(np_):
+                if o['rc'][k] is None:
+                    continue
+                if st['erange'][k] and o['rc'][k] != NC_ERANGE:
+                    fail('rc-unexpected', 'rank %d: put with an out-of-range value returns %d, expected NC_ERANGE' % (k, o['rc'][k]))
+                elif not st['erange'][k] and o['rc'][k] == NC_ERANGE:
+                    fail('rc-unexpected', 'rank %d: put with in-range values returns NC_ERANGE' % k)
         # never decreases
         for k in range(np_):
             if o['nr'][k] < prev_nr[k]:
@@ -472,7 +498,7 @@ def oracle(h, obs):
             coherent = True
         elif st['cls'] == 'sync' and ok_all:
             coherent = True
-        elif st['cls'] == 'indepwrite' and any(o['rc'][k] == 0 and st['done'][k] > 0 for k in range(np_)):
+        elif st['cls'] == 'indepwrite' and any(completed_rc(st, o, k) and st['done'][k] > 0 for k in range(np_)):
             coherent = False        # an independent write to a record variable: nothing is promised until the next sync call
         if coherent and not st['misuse']:
             if len(set(o['nr'])) != 1:
@@ -496,6 +522,8 @@ def finding_key(f):
             return 'F1:%s:subset' % sk
         if sk in ('put_varn_all', 'put_varn') and f.get('pending') and any(f['pending']):
             return 'F1:%s:pending-requests' % sk
+        if sk in ('coll_put', 'indep_put') and f.get('erange'):
+            return 'erange-put:%s:numrecs-not-updated' % sk
     return 'numrecs:%s:%s' % (f['kind'], sk)
 
 
@@ -504,14 +532,15 @@ COQ_HEAD = ('From Coq Require Import ZArith List.\nImport ListNotations.\nFrom P
             'Open Scope Z_scope.\nSet Printing Width 1000000.\nSet Printing Depth 1000000.\n')
 
 
-def cases_v(items):
-    """items: list of (np, ops_term).  One Eval per case printing
-    (trace_head, trace_fixed, head_ok over the history)"""
+def cases_v(items, loop='fixed', er=True):
+    """items: list of (np, ops_term).  One Eval per case printing (trace, head_ok over the history) of the model
+    variant (loop: 'head' = commit_loop / 'fixed' = commit_fixed; er: put_varm counts NC_ERANGE puts)"""
+    L = 'commit_loop' if loop == 'head' else 'commit_fixed'
+    E = 'true' if er else 'false'
     out = [COQ_HEAD]
     for np_, ops in items:
-        out.append('Eval vm_compute in (let ops := %s in (trace_head %d 0 ops, trace_fixed %d 0 ops, '
-                   'hist_allb commit_loop head_ok (init %d 0) ops, hist_allb commit_fixed head_ok (init %d 0) ops)).'
-                   % (ops, np_, np_, np_, np_))
+        out.append('Eval vm_compute in (let ops := %s in (trace %s %s (init %d 0) ops, '
+                   'hist_allb %s %s head_ok (init %d 0) ops)).' % (ops, L, E, np_, L, E, np_))
     return '\n'.join(out) + '\n'
 
 
@@ -545,7 +574,7 @@ def compare(h, obs, mobs):
             mism.append(dict(step=si, rel='corr_C05_hang', detail='model predicts a hang'))
             break
         for k in range(h.np):
-            if o['rc'][k] == 0 and st['done'][k] > 0:
+            if completed_rc(st, o, k) and st['done'][k] > 0:
                 own[k] = max(own[k], st['done'][k])
         if o['nr'] != m['nr']:
             mism.append(dict(step=si, rel='corr_C05_numrecs', detail='%s: impl %s model %s' % (st['kind'], o['nr'], m['nr'])))
@@ -622,6 +651,24 @@ def directed():
     # every rank passes an invalid start: all take the NC_REQ_ZERO path (no Allreduce, no hang, no change)
     h = Hist(2, 1, name='all-invalid')
     h.coll_put('R', [('vara', 2, 1), None]); h.coll_put('R', [('bad', 7), ('bad', 8)]); h.coll_put('R', [None, ('vara', 4, 1)]); h.close(); hs.append(h)
+    # puts whose data contain a value that is out of range for NC_SHORT (NC_ERANGE): the data are written and the
+    # record count follows - on the highest record (one rank / all ranks), on a lower record, independent, nonblocking
+    h = Hist(2, 1, name='erange-coll-one-rank-highest')
+    h.coll_put('R', [('vara', 1, 1), ('vara', 0, 1)]); h.coll_put('R', [('vara', 6, 1), None], er=[True, False])
+    h.coll_put('R', [None, ('vara', 2, 1)]); h.simple('reopen'); h.close(); hs.append(h)
+    h = Hist(3, 5, name='erange-coll-all-ranks')
+    h.coll_put('R', [('vara', 4, 1), ('vara', 5, 1), ('vars', 1, 2, 3)], er=[True, True, True])
+    h.coll_put('R', [('vara', 0, 1), None, None]); h.simple('sync'); h.simple('reopen'); h.close(); hs.append(h)
+    h = Hist(2, 2, name='erange-coll-lower-record')
+    h.coll_put('R', [None, ('vara', 7, 1)]); h.coll_put('R', [('vara', 3, 1), ('vara', 2, 1)], er=[True, False])
+    h.coll_put('R', [('vara', 8, 1), ('vara', 3, 1)], er=[False, True]); h.close(); hs.append(h)
+    h = Hist(2, 1, name='erange-indep')
+    h.simple('begin_indep'); h.indep_put(1, 'R', ('vara', 5, 1), er=True); h.indep_put(0, 'R', ('vars', 1, 2, 2), er=True)
+    h.indep_put(0, 'R', ('vara', 0, 1)); h.simple('sync_numrecs'); h.indep_put(0, 'R', ('vara', 8, 1), er=True)
+    h.simple('end_indep'); h.simple('reopen'); h.close(); hs.append(h)
+    h = Hist(2, 1, name='erange-iput')
+    a = h.post(0, 'R', ('vara', 4, 1), er=True); b = h.post(1, 'R', ('vara', 2, 1)); c = h.post(1, 'R', ('vara', 9, 1), er=True)
+    h.wait_all([[a], [b]]); h.wait_all(['all', 'all']); h.close(); hs.append(h)
     # bput
     h = Hist(2, 1, bput=True, name='bput')
     a = h.post(0, 'R', ('vara', 1, 2), api='bput'); b = h.post(1, 'R', ('vara', 8, 1), api='bput'); c = h.post(1, 'F', ('vara', 0, 2), api='bput')
@@ -630,17 +677,19 @@ def directed():
 
 
 # alphabet of the exhaustive search: 2 ranks, one record variable R and one fixed variable F
-ALPHABET = ['CP0', 'CP1', 'CPF', 'IP0', 'IP1', 'FILL', 'PF0', 'PR0', 'PR1', 'WALL', 'WLAST', 'WI0', 'VARN',
+ALPHABET = ['CP0', 'CP1', 'CE0', 'CPF', 'IP0', 'IP1', 'IE1', 'FILL', 'PF0', 'PR0', 'PR1', 'WALL', 'WLAST', 'WI0', 'VARN',
             'BEGIN', 'END', 'SYNC', 'SYNCN', 'REDEF', 'REOPEN']
 
 
 def apply_letter(h, a, last, variant=0):
     """one letter of the exhaustive alphabet; `last[k]` = most recently posted slot of rank k still pending.
     variant 1 uses another assignment of record numbers to letters."""
-    rec = {'CP0': 1, 'CP1': 3, 'IP0': 2, 'IP1': 4, 'FILL': 5, 'PR0': 6, 'PR1': 7, 'VARN': 8} if variant == 0 else \
-          {'CP0': 7, 'CP1': 2, 'IP0': 8, 'IP1': 1, 'FILL': 3, 'PR0': 4, 'PR1': 6, 'VARN': 5}
+    rec = {'CP0': 1, 'CP1': 3, 'IP0': 2, 'IP1': 4, 'FILL': 5, 'PR0': 6, 'PR1': 7, 'VARN': 8, 'CE0': 9, 'IE1': 10} if variant == 0 else \
+          {'CP0': 7, 'CP1': 2, 'IP0': 8, 'IP1': 1, 'FILL': 3, 'PR0': 4, 'PR1': 6, 'VARN': 5, 'CE0': 6, 'IE1': 4}
     if a == 'CP0': h.coll_put('R', [('vara', rec[a], 1), None])
     elif a == 'CP1': h.coll_put('R', [None, ('vara', rec[a], 1)])
+    elif a == 'CE0': h.coll_put('R', [('vara', rec[a], 1), None], er=[True, False])
+    elif a == 'IE1': h.indep_put(1, 'R', ('vara', rec[a], 1), er=True)
     elif a == 'CPF': h.coll_put('F', [('vara', 0, 2), ('vara', 0, 1)])
     elif a == 'IP0': h.indep_put(0, 'R', ('vara', rec[a], 1))
     elif a == 'IP1': h.indep_put(1, 'R', ('vara', rec[a], 1))
@@ -674,8 +723,8 @@ def apply_letter(h, a, last, variant=0):
         h.simple('reopen'); last[0] = last[1] = None
 
 
-COLL_ONLY = ('CP0', 'CP1', 'CPF', 'FILL', 'WALL', 'WLAST', 'VARN')
-INDEP_ONLY = ('IP0', 'IP1', 'WI0')
+COLL_ONLY = ('CP0', 'CP1', 'CE0', 'CPF', 'FILL', 'WALL', 'WLAST', 'VARN')
+INDEP_ONLY = ('IP0', 'IP1', 'IE1', 'WI0')
 
 
 def rejected(h, a):
@@ -737,13 +786,13 @@ def random_hist(rng, idx):
         if c < 14:
             v = rng.choice(recvars)
             accs = [None if rng.chance(1, 3) else racc() for _ in range(np_)]
-            h.coll_put(v, accs)
+            h.coll_put(v, accs, er=[rng.chance(1, 4) for _ in range(np_)])
         elif c < 17:
             h.coll_put('F', [None if rng.chance(1, 4) else ('vara', rng.below(2), 1) for _ in range(np_)])
         elif c < 30:
             k = rng.below(np_)
             if rng.chance(1, 5): h.indep_put(k, 'F', ('vara', 0, 2))
-            else: h.indep_put(k, rng.choice(recvars), racc())
+            else: h.indep_put(k, rng.choice(recvars), racc(), er=rng.chance(1, 4))
         elif c < 36:
             r = rng.below(9)
             h.fill(rng.choice(recvars), [r] * np_ if rng.chance(4, 5) else [rng.below(9) for _ in range(np_)])
@@ -754,7 +803,7 @@ def random_hist(rng, idx):
             else:
                 v = rng.choice(recvars)
                 if rng.chance(1, 6): h.post(k, v, ('varn', [(rng.below(8), 1), (rng.below(8), rng.range(1, 2))]), api)
-                else: h.post(k, v, racc(), api)
+                else: h.post(k, v, racc(), api, er=rng.chance(1, 5))
         elif c < 70:
             sels = []
             for k in range(np_):
